@@ -155,13 +155,27 @@ def _check_that_array_sizes_are_usable(type_ir, source_file_name, errors, ir):
         if not ir_util.get_attribute(base_type.attribute, attributes.FIXED_SIZE):
             # Reported by _check_that_array_base_types_are_fixed_size.
             return
-    if ir_util.fixed_size_of_type_in_bits(type_ir.base_type, ir) == 0:
+    element_size_in_bits = ir_util.fixed_size_of_type_in_bits(type_ir.base_type, ir)
+    if element_size_in_bits == 0:
         errors.append(
             [
                 error.error(
                     source_file_name,
                     type_ir.base_type.source_location,
                     "Array elements must not be zero-sized.",
+                )
+            ]
+        )
+    elif element_size_in_bits is not None and element_size_in_bits >= 2**64:
+        # The size of an element of `UInt:64[0x2000_0000_0000_0000][]` is a
+        # product that no expression of the module contains, so the 64-bit
+        # check on expressions does not see it.
+        errors.append(
+            [
+                error.error(
+                    source_file_name,
+                    type_ir.base_type.source_location,
+                    "Array elements must be smaller than 2**64 bits.",
                 )
             ]
         )
